@@ -35,6 +35,11 @@ def family(rp):
     f.add("loop-variable-inside", "for i in 0 .. 3 do\n    print(i)", "accept")
     f.add("match-arm-variable-outside", "def a := 1\nmatch a\n    1 => def y := 2\n    _ => def y := 3\nprint(y)", "reject")
     f.add("shadowing", "def x := 1\ndef x := \"s\"\nprint(x)", "accept")
+    meter = "class Meter\n    def scale(self, factor: Float) -> Float => factor * 2.0\n\n"
+    f.add("shadow-closed-function-scope-str-into-float", meter + "def x: Str := \"wide\"\n\ndef half(x: Float) -> Float => x / 2.0\n\ndef m := Meter()\nm.scale(x)\n", "reject")
+    f.add("shadow-closed-loop-scope-float-into-float", meter + "def run(m: Meter, x: Float) -> Float =>\n    for x in [\"a\", \"b\"] do\n        print(x)\n    m.scale(x)\n", "accept")
+    f.add("shadow-later-definition-wins", "def x := 1\ndef x := \"s\"\ndef y: Str := x", "accept")
+    f.add("shadow-earlier-definition-gone", "def x := 1\ndef x := \"s\"\ndef y: Int := x", "reject")
     f.add("undefined-in-function", "def f(a: Int) -> Int => a + b", "reject")
     f.add("later-global-in-function", "def f() -> Int => g\ndef g := 1", "reject")
     f.add("block-after-def", "def f() -> Int =>\n    def y := 1\n    y", "accept")
@@ -380,6 +385,12 @@ def run(run):
             f(run, mir, rp, fam)
         except Unsupported as e:
             run.ob(f.__name__[3:] + "-encoding", "E2", "kernel is encodable").inconclusive(f"unsupported construct: {e}")
+    try:
+        # shadowing: later uses see the new definition - identifiers are renamed to their current shadow (shared with C05)
+        from props import C05
+        C05.ob_shadow_mapping(run, mir, rp, fam)
+    except Unsupported as e:
+        run.ob("shadow-mapping-encoding", "E2", "kernel is encodable").inconclusive(f"unsupported construct: {e}")
     if run.clean():
         e2.validate_family(run, fam, "definite-assignment")
     rp.close()
